@@ -1,6 +1,6 @@
 PROPERTY = "C16"
 LEVEL = "model_checking"
-FUNCTIONS = ["describe_tree", "print_simple", "print_name", "print_perm",
+FUNCTIONS = ["fstree_from_file_stream", "describe_tree", "print_simple", "print_name", "print_perm",
              "split_line", "append_arg", "is_sep",
              "handle_line", "add_generic", "add_file", "add_device",
              "parse_uint / parse_uint_oct (real, on the concrete numeric fields)",
@@ -22,7 +22,7 @@ ASSUMPTIONS = [
     "the two halves meet in the spec function Q (spec/quote_spec.h); printer output == Q(text) and split_line(Q(text)) == text are checked separately, never chained",
     "numeric fields are digit strings on both sides (printf %o/%u on one side, parse_uint on the other); their agreement is libc's",
     "file contents and the unpacked files (C01/C06), hard links (describe prints every name as an independent file), xattrs are outside C16",
-    "istream_get_line is not executed here; its CR-eating is covered by the obligation C16.line.crlf_safe on the spec'd line only",
+    "istream_get_line is represented by its C12 specification (spec/getline_spec.h) in the stream harness, evaluated with the flags fstree_from_file_stream really passes",
     "entries whose names the unpacker refuses ('.', '..', with '/') make describe fail with a diagnostic (obligation C16.describe.failure_reported); an unnamed non-root directory prints no line",
 ]
 EXPLANATION = ("the printer's captured output is compared with Q(text) for every short text, the real tokenizer is run on Q(text) "
@@ -41,13 +41,15 @@ def _dl(kind, length, shape=1):
 
 
 def _sp(field, length):
+    # one bound for every loop of split_line (loop numbers change when the
+    # function is refactored; a tighter per-loop bound would turn a harmless
+    # refactoring into an unwinding-assertion failure)
+    b = max(8, 2 * length + 3) + 1
     return dict(id="field%d_len%d" % (field, length),
                 defines={"FIELD": field, "LEN": length},
                 unwind=2 * length + 3 + 24 + 2,
-                unwindset=["split_line.0:2", "split_line.4:8",
-                           "split_line.1:%d" % (2 * length + 3),
-                           "split_line.2:%d" % max(length + 2, 7),
-                           "split_line.3:3", "strchr.0:4"])
+                unwindset=["split_line.%d:%d" % (i, b) for i in range(0, 7)] +
+                          ["strchr.0:4"])
 
 
 HARNESSES = [
@@ -64,6 +66,12 @@ HARNESSES = [
                 for f in (0, 1) for n in range(1, 4)] +
                [dict(_sp(f, n), tier="thorough", label="bounded(len<=8)")
                 for f in (0, 1) for n in range(4, 9)]),
+    dict(name="stream", file="stream.c", include_dirs=["bin/gensquashfs/src"],
+         fp={"get_filename": "stub_filename", "destroy": "stub_filename"},
+         label="bounded(len<=3)", timeout=900,
+         cases=[dict(id="eol%d_len%d" % (e, n), defines={"EOL": e, "LEN": n},
+                     unwind=2 * n + 30, tier="quick")
+                for e in (0, 1) for n in (1, 2, 3)]),
     dict(name="handle_line", file="handle_line.c",
          include_dirs=["bin/gensquashfs/src"],
          nochecks=["--conversion-check"],
